@@ -45,10 +45,24 @@ def strategy():
 
 def case_json(gm, o, seeds, feeds_list):
     return {"model": optcommon.model_to_json(gm.model), "opts": o, "text": modelgen.model_text(gm.model, 4000),
-            "feeds": [optcommon.feeds_to_json(f) for f in feeds_list], "overridable": gm.overridable}
+            "feeds": [optcommon.feeds_to_json(f) for f in feeds_list], "overridable": gm.overridable,
+            "sample_feeds": optcommon.feeds_to_json(gm.sample_feeds)}
 
 
-def check(model, o, feeds_list, overridable):
+def _runtimes_disagree_on_source(model, sample_feeds):
+    """onnxruntime and onnx.reference both run the source on the sample input and return different outputs (e.g. a Slice with a negative
+    step whose start lies before the beginning of the axis: ONNX/onnxruntime clamp it to the first element, the numpy kernel of
+    onnx.reference returns nothing).  Constant folding evaluates with the onnx.reference kernels, the checker infers shapes by the
+    ONNX rules: a shape conflict reported by the strict checker on such a model is a discrepancy inside onnx, not a verdict on
+    onnxscript (same rule as DESIGN 1.4 `runtime_disagreement_on_source`)."""
+    if sample_feeds is None:
+        return False
+    src = compare.Source(model)
+    a, b, scale = src.run(sample_feeds)
+    return a[0] == "ok" and b[0] == "ok" and compare.same_outputs(a[1], b[1], scale=scale, k=16 * max(1, src.nnodes)) is not None
+
+
+def check(model, o, feeds_list, overridable, sample_feeds=None):
     """Oracle on one (model, options).  Returns (list[(bucket, detail)], info dict)."""
     verdicts = []
     info = {}
@@ -58,6 +72,9 @@ def check(model, o, feeds_list, overridable):
     new = r[1]
     info["changed"] = optcommon.folded_or_rewritten(model, new)
     probs = wellformed.check_model(new)
+    if probs and all(kind == "checker" and "ShapeInferenceError" in msg for kind, msg in probs) and _runtimes_disagree_on_source(model, sample_feeds):
+        info["inconclusive"] = "shape_conflict_on_runtime_ambiguous_source"
+        probs = []
     for kind, msg in probs[:3]:
         verdicts.append((f"invalid:{kind}:{o['api']}", msg))
     # interface
@@ -135,12 +152,14 @@ def run_shard(spec):
             col.skip("source_not_executable")
             return
         feeds_list = override_feeds(gm, gm.seeds(4)) if gm.overridable else []
-        verdicts, info = check(gm.model, o, feeds_list, gm.overridable)
+        verdicts, info = check(gm.model, o, feeds_list, gm.overridable, gm.sample_feeds)
         feats = set(gm.features)
         nontrivial = bool(feats & {"If", "Loop", "function"}) or bool(gm.overridable)
         classes = [f for f in feats if not f.startswith(("op:", "in:", "const:"))] + ["api:" + o["api"], "entry:" + o.get("entry", "proto")]
         if info.get("changed"):
             classes.append("model_changed")
+        if info.get("inconclusive"):
+            classes.append("inconclusive:" + info["inconclusive"])
         if gm.overridable:
             classes.append("has_overridable")
             classes.append("override:" + str(info.get("override_verdict")))
@@ -157,7 +176,8 @@ def run_shard(spec):
 def replay(case):
     model = optcommon.model_from_json(case["model"])
     feeds = [optcommon.feeds_from_json(f) for f in case.get("feeds", [])]
-    verdicts, _ = check(model, case["opts"], feeds, case.get("overridable", []))
+    sample = optcommon.feeds_from_json(case["sample_feeds"]) if case.get("sample_feeds") else None
+    verdicts, _ = check(model, case["opts"], feeds, case.get("overridable", []), sample)
     return verdicts
 
 
